@@ -3194,7 +3194,9 @@ func (t *Terminal) printHighlighted(result Result, colBase tui.ColorPair, colMat
 				}
 			}
 			if t.hscroll {
-				if t.keepRight && pos == nil {
+				// --keep-right is effective when the query is empty: no positions are
+				// reported, or the list was filtered by a deny list only (exclude)
+				if t.keepRight && (pos == nil || match && t.merger.pattern != nil && t.merger.pattern.HasNoTerms()) {
 					trimmed, diff := t.trimLeft(line, maxWidth-ellipsisWidth)
 					transformOffsets(diff, false)
 					line = append(ellipsis, trimmed...)
